@@ -184,8 +184,11 @@ def v_mime_onestep(p):
   eta = z3.Real('client_learning_rate')
   sgd = SgdV(eta)
   g = real_globals()
-  g['jax'].attrs['random'] = Module('jax.random', {'split': Handler(
-      lambda ctx, k, num=2: (KeyV(S0(k.term)), KeyV(S1(k.term))), 'split')})
+  def c_split(ctx, k, num=2):
+    if is_z3(num) or num == 2:
+      return (KeyV(S0(k.term)), KeyV(S1(k.term)))
+    return tuple(KeyV(z3.Function(f'split{num}_{i}', Key, Key)(k.term)) for i in range(num))   # distinct keys
+  g['jax'].attrs['random'] = Module('jax.random', {'split': Handler(c_split, 'split')})
   g['base_optimizer'] = sgd
 
   class BV(Val):
